@@ -67,6 +67,12 @@ def generate(repo, ws, write_if_changed):
              dict(kind="trait", name="ExtendedHeaderExt"),
              dict(kind="impl", impl=r"impl ExtendedHeaderExt for ExtendedHeader"),
          ]))
+    emit("pruner_c36.rs", slice_file(repo, "node/src/pruner.rs", [
+        dict(kind="struct", name="BlockInfo"),
+        dict(kind="fn", name="find_height_after_window"),
+        dict(kind="fn", name="find_height_after_window_fast"),
+        dict(kind="fn", name="find_height_after_window_slow"),
+    ]))
     emit("p2p_c27.rs", slice_file(repo, "node/src/p2p.rs", [
         dict(kind="fn", name="get_verified_headers_range", impl=r"^impl P2p$", wrap="impl P2p"),
     ]))
